@@ -11,7 +11,7 @@ fn assemble(pairs: &[u64], s0: &[usize], s1: &[usize], bv: BitVector) -> RSNarro
     }
 }
 
-// @h props=C06,C04:t tier=quick family=K mem=8 timeout=1200 role=rsnarrow.sub_block_rank
+// @h props=C06,C04:t tier=quick family=K mem=5 timeout=1200 role=rsnarrow.sub_block_rank
 // @bound directory of 2 arbitrary (rank, sub-ranks) pairs; every word index 0..16: value = block rank + 9-bit field of the word (0 for the first word; bit 63 of the sub-rank word is never set by `new`)
 // @funcs RSNarrow::sub_block_rank, RSNarrow::block_rank, RSNarrow::sub_block_ranks
 #[kani::proof]
@@ -315,7 +315,7 @@ fn c06_narrow_select_law_word() {
     core::mem::forget(rs);
 }
 
-// @h props=C06,C04 tier=quick family=E mem=8 timeout=1200 role=rsnarrow.empty
+// @h props=C06,C04 tier=quick family=E mem=5 timeout=1200 role=rsnarrow.empty
 // @bound empty and Default RSNarrow: every query with arguments over the machine range gives no position and no non-zero count, no panic
 // @funcs RSNarrow::new, RSNarrow::default, RSNarrow::rank1, RSNarrow::rank0, RSNarrow::select1, RSNarrow::select0, RSNarrow::get, RSNarrow::n_ones, RSNarrow::n_zeros
 #[kani::proof]
